@@ -14,7 +14,7 @@ from ..dataflow import key, varkey, unawait, test_facts
 from ..engine import terms
 from ..roles import all_roles
 from ..terms import show, C
-from ..util import src, node_calls, call_attr, norm_stmt, attr_writes, own_calls
+from ..util import subst_copies, src, node_calls, call_attr, norm_stmt, attr_writes, own_calls
 
 LEVEL = "other"
 
@@ -407,9 +407,10 @@ def _send_primitive(ctx, R, roles, T):
                 ok, why = False, "ambiguous branch structure around the payload write"
                 break
             pol = lab[0] == "true"
-            r_empty = len_cond_eval(tnode.ast.test, xkey, 0, 0)
-            r_one = len_cond_eval(tnode.ast.test, xkey, 1, 1)
-            r_many = len_cond_eval(tnode.ast.test, xkey, 1, None)
+            ttest = subst_copies(ctx, sp, tnode, tnode.ast.test)
+            r_empty = len_cond_eval(ttest, xkey, 0, 0)
+            r_one = len_cond_eval(ttest, xkey, 1, 1)
+            r_many = len_cond_eval(ttest, xkey, 1, None)
             if r_empty is None or r_one is None or r_many is None:
                 ok, why = False, "payload write depends on `%s`, which is not a function of `len(msg.data)` alone" % src(tnode.ast.test)
                 break
